@@ -113,5 +113,8 @@ loop_entry("types::Command::from_tokens", "$1=False",
 loop_entry("shell::do_command_substitution_for_dollar",
            'discr(libs::re::find_first_group("\\$\\((.+)\\)", std::string::String::de=None | discr(regex::Regex::new("(?P<head>[^\\$]*)\\$\\(.+\\)(?P<tail>.*)"))=Err | shell::should_do_dollar_command_extension(std::string::String::deref($=False',
            "each cycle replaces the first $(...) of `line` by command output (rescan of that output: C11 R11-2)")
-loop_entry("shell::expand_env", "shell::env_in_token(std::string::String::deref($1))=False",
-           "each cycle rewrites the first reference in _token via expand_one_env (rescan of the value: C10 R10-1)")
+loop_entry("shell::expand_env",
+           "shell::env_in_token(std::string::String::deref($1))=False | std::string::String::eq(shell::expand_one_env($1, std::string::String:=True",
+           "each cycle rewrites a reference in _token via expand_one_env and leaves when the rewrite changed nothing "
+           "(the gate accepts `${NAME` without the closing brace, the rewriter does not: the explicit test is what "
+           "ends the loop; rescan of the value: C10 R10-1)", check="fixpoint-guard")
